@@ -33,6 +33,9 @@ def translate():
     from translator import gen_kernels_glue
 
     out.update(gen_kernels_glue.generate("getWindow"))
+    # add_mask / add_no_data / add_disparity / the tail of create_dataset_from_inputs regenerated (translator/gen_kernels_dataset.py):
+    # Generated/KernelsDataset.lean, Properties/C16KernelsDataset.lean
+    out.update(registry.generate("KernelsDataset"))
     return out
 
 
@@ -500,9 +503,113 @@ def check_case(ctx, report, case, params, label=""):
 # ------------------------------------------------------------------------------------------------
 # entry points
 # ------------------------------------------------------------------------------------------------
+def dataset_kernel_cross_check(ctx, report, status):
+    """T15 (dataset construction): the real `add_mask`, `add_no_data`, `add_disparity` and the nodata detection against the
+    exact evaluation of the trees `Generated/KernelsDataset.lean` is printed from.  The mask file is replaced by an object
+    whose `read` returns the generated raster (any integer dtype: int32 / int64 masks hold multiples of 65536, uint8 masks
+    hold 128..255, int16 masks negative values); rasters are float32 images coming from float32 / uint8 / int16 data."""
+    import random
+
+    import numpy as np
+    import xarray as xr
+
+    from translator import gen_kernels_dataset as gk
+
+    try:
+        f = gk.functions()
+    except Exception:  # already reported by build_and_audit (translate())  # pylint: disable=broad-except
+        return
+    import pandora.img_tools as it
+
+    class FakeReader:
+        def __init__(self, arr):
+            self.arr = arr
+
+        def read(self, *args, **kwargs):  # read(1, window=window) / read(out_dtype=np.float32, window=window)
+            a = np.array(self.arr)
+            return a.astype(kwargs["out_dtype"]) if "out_dtype" in kwargs else a
+
+    rng = random.Random(1616 + ctx.seed)
+    real_open = it.rasterio_open
+    n = ctx.n(220, 2500)
+    try:
+        for k in range(n):
+            rows, cols, nb = rng.choice([(1, 1), (2, 3), (3, 2), (4, 5)]), None, rng.choice([1, 1, 2, 3])
+            rows, cols = rows
+            src = rng.choice(["float32", "uint8", "int16"])
+            lo, hi = {"float32": (-3, 4), "uint8": (0, 5), "int16": (-3, 4)}[src]
+            im = np.array([[[rng.randrange(lo, hi) for _ in range(cols)] for _ in range(rows)] for _ in range(nb)]).astype(src).astype(np.float32)
+            nodata = rng.choice([0, 1, -1, 2.5, float("nan"), float("inf"), float("-inf"), -9999])
+            if src == "float32" and rng.random() < 0.6:
+                for _ in range(rng.randrange(0, 4)):
+                    im[rng.randrange(nb), rng.randrange(rows), rng.randrange(cols)] = rng.choice([np.nan, np.inf, -np.inf])
+            mdt = rng.choice([None, "uint8", "int16", "int32", "int64", "uint16"])
+            raw = None
+            if mdt:
+                pool = {"uint8": [0, 0, 1, 2, 128, 255], "int16": [0, 0, 1, -1, -32768, 300], "uint16": [0, 0, 1, 65535, 256],
+                        "int32": [0, 0, 1, 65536, 131072, -65536, 65537, -1], "int64": [0, 0, 2, 65536, 1 << 32, -(1 << 16), 1 << 40]}[mdt]
+                raw = np.array([[rng.choice(pool) for _ in range(cols)] for _ in range(rows)], dtype=mdt)
+            # ---- detection + add_no_data + add_mask, as the tail of create_dataset_from_inputs runs them
+            ds = xr.Dataset({"im": (["band_im", "row", "col"], im.copy()) if nb > 1 else (["row", "col"], im[0].copy())},
+                            attrs={"valid_pixels": 0, "no_data_mask": 1})
+            data = ds["im"].data
+            if np.isnan(nodata):
+                px = np.where(np.isnan(data))
+            elif np.isinf(nodata):
+                px = np.where(np.isinf(data))
+            else:
+                px = np.where(data == nodata)
+            it.rasterio_open = lambda *_a, **_k: FakeReader(raw)
+            out = it.add_no_data(ds, nodata, px)
+            out = it.add_mask(out, "mask.tif" if raw is not None else None, px, cols, rows, None)
+            # ---- the evaluator on the same input
+            chain = f["tail"]["chain"]
+            sel = [p for t, p in chain if (t == "isnan" and np.isnan(nodata)) or (t == "isinf" and np.isinf(nodata)) or t is None][0]
+            pred = {"isnan": np.isnan, "isinf": np.isinf, "eq": lambda a: a == np.float32(nodata) if not np.isnan(nodata) else a != a}[sel]
+            hit3 = pred(im)
+            anyhit = bool(hit3.any())
+            t_nd = f["add_no_data"]
+            rewrite = anyhit and any((np.isnan(nodata) if t == "isnan" else np.isinf(nodata)) for t in t_nd["tests"])
+            want_im = np.where(hit3, np.float32(t_nd["store"]), im) if rewrite else im
+            want_attr = t_nd["attr"] if rewrite else nodata
+            hit2 = hit3.any(axis=0)
+            want_msk = gk.eval_add_mask(f["add_mask"], {"valid_pixels": 0, "no_data_mask": 1}, rows, cols,
+                                        None if raw is None else raw.tolist(), hit2.tolist(), anyhit)
+            got_im = out["im"].data.reshape(im.shape)
+            got_msk = None if "msk" not in out else out["msk"].data.astype(np.int64).tolist()
+            got_attr = out.attrs["no_data_img"]
+            report.translator_checks += 1
+            same_attr = (got_attr == want_attr) or (isinstance(got_attr, float) and np.isnan(got_attr) and np.isnan(want_attr))
+            if not np.array_equal(got_im, want_im, equal_nan=True) or got_msk != want_msk or not same_attr:
+                status.problem("translator", f"translated add_no_data / add_mask evaluate differently from the real functions: {rows}x{cols}x{nb} "
+                               f"{src} image, nodata {nodata}, mask dtype {mdt} (image equal {np.array_equal(got_im, want_im, equal_nan=True)}, "
+                               f"msk equal {got_msk == want_msk}, no_data_img equal {same_attr})")
+                return
+            # ---- add_disparity: [min, max] pair and two-band grid
+            if k % 3 == 0:
+                ds2 = xr.Dataset({"im": (["row", "col"], im[0].copy())})
+                pair = [rng.randrange(-9, 3), rng.randrange(3, 9)]
+                grid = np.array([[[rng.randrange(-5, 0) for _ in range(cols)] for _ in range(rows)],
+                                 [[rng.randrange(0, 5) for _ in range(cols)] for _ in range(rows)]], dtype=np.float32)
+                it.rasterio_open = lambda *_a, **_k: FakeReader(grid)
+                o_pair = it.add_disparity(ds2.copy(deep=True), pair, None)["disparity"].data
+                o_grid = it.add_disparity(ds2.copy(deep=True), "grid.tif", None)["disparity"].data
+                o_none = it.add_disparity(ds2.copy(deep=True), None, None)
+                i0, i1 = f["add_disparity"]["pair"]
+                want_pair = np.array([np.full((rows, cols), pair[i0]), np.full((rows, cols), pair[i1])])
+                report.translator_checks += 1
+                if not np.array_equal(o_pair, want_pair) or not np.array_equal(o_grid, grid) or "disparity" in o_none:
+                    status.problem("translator", "translated add_disparity evaluates differently from the real function")
+                    return
+    finally:
+        it.rasterio_open = real_open
+    report.count("dataset_kernel_cross_check_inputs", n)
+
+
 def run(ctx, report, status):
     params = source_params(report, status)
     translator_cross_check(report, status, params)
+    dataset_kernel_cross_check(ctx, report, status)
     from .. import glue_check
 
     glue_check.selftest(status)
